@@ -303,9 +303,11 @@ def rule_a3(F):
         r.missing("mir::ty::Pool::is_reference_type")
         return r
     by_value = set()
-    for m in hir.find_match_on(ib.hir["value"], "Ty::", min_arms=4):
+    for m in hir.find_match_on(ib.hir["value"], "Ty::", min_arms=2):
         for row in hir.table(m):
             body = hir.strip(row["body"])
+            while body.get("k") == "call" and hir.last(hir.call_def(body) or "") == "Some" and len(body.get("args") or []) == 1:
+                body = hir.strip(body["args"][0])    # the answer may be wrapped arm by arm (`=> Some(false)`)
             if body.get("k") == "lit" and body.get("v") is False:
                 for a in row["alts"]:
                     for x in re.findall(r"Primitive::(\w+)", a):
